@@ -181,6 +181,53 @@ def eval_construct(case):
                 pass
             except Exception as e:
                 fail("wrong-shape-wrong-error", f"covariance shape {shp}: {type(e).__name__}")
+    # make_reading on a real compiled filter whose sensor's readings are the name list (every 4th list, sizes 1..3)
+    from formak import python as fpy
+    for names in [a for a in case["arglists"] if a][::4]:
+        x = sympy.Symbol("x")
+        try:
+            ekf = fpy.compile_ekf(pyimpl.ui.Model(sympy.Symbol("dt"), {x}, set(), {x: x}), {}, {"s": {nm: x * (i + 1) for i, nm in enumerate(names)}},
+                                  {"s": {nm: 0.5 for nm in names}})
+        except Exception as e:
+            fail("make_reading-setup", f"compile_ekf with readings {names} raised {e!r}"[:300])
+            continue
+        order = sorted(names)
+        vals = {nm: 2.5 + 0.5 * i for i, nm in enumerate(names)}
+        for r in range(len(names) + 1):
+            for subset in itertools.permutations(names, r):
+                n += 1
+                try:
+                    rd = ekf.make_reading("s", **{nm: vals[nm] for nm in subset})
+                except Exception as e:
+                    fail("make_reading-raises", f"make_reading('s', {list(subset)}) over readings {names} raised {e!r}"[:300])
+                    continue
+                exp = [vals[nm] if nm in subset else 0.0 for nm in order]
+                if [float(v) for v in rd.data.ravel()] != exp:
+                    fail("make_reading-binding", f"make_reading over {order} with {list(subset)}: data {rd.data.ravel().tolist()}, expected {exp}")
+        good = np.arange(1.0, len(names) + 1.0).reshape((len(names), 1))
+        try:
+            if ekf.make_reading("s", data=good.copy()).data.tolist() != good.tolist():
+                fail("make_reading-data", f"make_reading(data=...) over {order} did not keep its data")
+        except Exception as e:
+            fail("make_reading-data-raises", f"make_reading(data=right shape) raised {e!r}"[:200])
+        for shp in ((len(names) + 1, 1), (len(names),), (1, len(names)) if len(names) > 1 else (1, 2)):
+            try:
+                ekf.make_reading("s", data=np.zeros(shp))
+                fail("make_reading-wrong-shape-accepted", f"make_reading(data=shape {shp}) accepted for readings {order}")
+            except ValueError:
+                pass
+            except Exception as e:
+                fail("make_reading-wrong-shape-wrong-error", f"shape {shp}: {type(e).__name__}")
+        for bad in (names[0][:-1] or "q", names[0] + "x", "q"):
+            if bad in names or not bad.isidentifier():
+                continue
+            try:
+                ekf.make_reading("s", **{bad: 1.0})
+                fail("make_reading-unknown-name-accepted", f"make_reading over {order} accepted unknown reading '{bad}'")
+            except TypeError:
+                pass
+            except Exception as e:
+                fail("make_reading-unknown-name-wrong-error", f"'{bad}': {type(e).__name__}")
     return {"n": n, "fails": fails, "sigs": sigs, "outcomes": ["constructed"],
             "sample": {"kind": "construct", "arglists": case["arglists"][:3], "constructions": n}}
 
